@@ -49,7 +49,15 @@ void cache::clear()
   verif::sp(30);
 #endif
 
-  ++seal_;
+  if (++seal_ == 0)
+  {
+    // The seal wrapped around: without a reset the slots stamped 2^32 clears
+    // ago would become valid again.
+    for (auto &s : table_)
+      s.seal = 0;
+
+    seal_ = 1;
+  }
 
   // for (auto &s : table_)
   // {
